@@ -33,6 +33,7 @@ PROPS["C02"] = {
     "explanation": "Bounded model checking (Kani/CBMC) of the real row-level predicate code on both storage tiers: NumericCondition / LogicalCondition evaluated over the real typed ColumnValues views (segment tier) and over a real Event (memory tier) are each compared with the mathematical comparison for every 64-bit value, literal and operator, so the two tiers are shown to agree; literal typing in add_where_clause is checked the same way. B-3 (= C08 B-7): the temporal pruner's per-zone range test. B-4 (Engine B): every index-strategy arm of FieldSelector::select_for_segment falls back to all zones when its pruner has no answer (None) - the arms used to return no zones, so != and other operators the index cannot serve lost every flushed row (F-C02-e, fixed). B-5 (Engine B): ZoneHydrator::hydrate also hydrates candidate zones that carry no uid when they are mixed with zones that do (reachability of the event-type load under the mixed guard; F-C02-f, fixed). B-6 (Engine B): the string view a bool predicate's StringCondition gets of a flushed column answers for typed bool cells - ColumnValues::get_str_at reads the bool payload or PreparedAccessor::get_str_at falls back to get_bool_at and returns a value derived from it (F-C02-g, fixed; a Kani harness through the production PreparedAccessor ran out of memory in propositional reduction after 530 s of symbolic execution - HashMap). B-7 (Engine B): the accessor's per-lane (values, validity) buffers answer None only for an absent column or a fully examined row range without a value of the lane (the SIMD filter treats None as 'other lane' and clears the zone). B-4, B-5, B-6 and B-7 counterexamples are replayed end to end: the same predicates answered from the memtable and from flushed segments of the real engine. B-8 (= C08 B-8): an index pruner answers Some(zones) only after consulting the index for the probe.",
     "outside": [
         "zone / segment pruning (C08 covers the pruning structures Kani reaches; zone_collector, zone_combiner, index_planner are HashMap / I-O bound; of field_selector and zone_hydrator only the fall-back / hydration paths B-1, B-4, B-5)",
+        "quick tier: the memory-tier twins of the AND / OR / NOT harnesses and of the large-u64 harness run in the thorough tier only (they take 2-3 minutes each and pushed the quick check beyond 15 minutes on a loaded machine); the quick tier keeps both tiers of the three numeric leaf harnesses and the segment tier of the logical ones",
         "B-5 is a reachability claim (some path hydrates uid-less zones in the mixed case), not coverage of every such zone: the zone lists are opaque collections",
         "B-6 is structural (which payload the string view reads), not a value-level equivalence: bool cells that are null, the rendering of the literals",
         "string, enum and temporal literals (chrono / serde_json parsing does not finish under Kani)",
@@ -49,6 +50,7 @@ PROPS["C08"] = {
     "level": "model_checking",
     "explanation": "Bounded model checking (Kani/CBMC) of the pruning kernels that are executable symbolically: the order-preserving key encodings shared by the SuRF builder and the range probe (same-kind and cross-kind literals), the per-zone time index (builder invariant + query side from any state satisfying it) and the calendar's bucket arithmetic. Soundness is asserted as: whenever a stored value satisfies the probe, the structure's comparison keeps the zone. Engine B B-2: TemporalCalendarIndex::add_zone_range inserts the zone into every hour and day bucket of its range (per loop iteration: admitted by t <= end implies inserted; key and step checked). B-4: zone identity in CandidateZone::uniq / ZoneCombiner must include the event type (data flow of the keys; known finding F-C08-d, replayed end to end on the real engine). B-5: the per-zone XOR filter is built from every value value_to_string renders, hashed with stable_hash64. B-3: naive_bucket_of over the whole u64 range (integer encoding). B-6: zone candidates of NOT F are never a complement of F's candidates (known finding F-C08-e, replayed end to end). B-7: the temporal pruner's [min, max] test per operator. B-8: the enum / zone-XOR / XOR-presence / SuRF pruners answer Some(zones) only on paths on which the index was consulted for the probe. B-9: ZoneSurfFilter::build_all_filtered checks numeric-kind consistency over all zone plans of the segment before a field gets a range filter.",
     "outside": [
+        "quick tier: the exclusive SuRF probes (A-5gt, A-5lt; 9 minutes each) run in the thorough tier only, the inclusive ones (A-5ge, A-5le) in both",
         "the trie builder under the solver (SurfTrie::build_from_sorted uses a HashMap): the probe harnesses start from hand-written trie arrays that a native run compares with the real builder; keys longer than 3 bytes, more than two keys per zone, the 16-lane SIMD child scan (needs >= 16 children)",
         "enum bitmaps, the calendar index's bitmap operations (HashMap<u32,RoaringBitmap>; its bucket-id function is decided by Engine B, B-1), the min_ts >= 0 insertion guard in the async temporal builder, XOR / binary-fuse filters, context index, index catalog, the >90% fallback rule: HashMap / roaring / xorf / I-O bound",
         "strings and booleans as range keys; floats with |x| >= 9e18 (u64 / f64 fall-back lanes)",
